@@ -6,6 +6,7 @@ import (
 	"net/http"
 	"net/url"
 	"os"
+	"path"
 	"path/filepath"
 	"sort"
 	"strings"
@@ -98,7 +99,18 @@ func casketfile(c *Case, dir string) string {
 
 // documented matcher: cleaned, case-insensitive prefix
 func pathMatches(p, base string) bool {
-	return httpserver.Path(p).Matches(base)
+	if base == "/" || base == "" {
+		return true
+	}
+	pt, bt := strings.HasSuffix(p, "/"), strings.HasSuffix(base, "/")
+	p, base = path.Clean(p), path.Clean(base)
+	if pt {
+		p += "/"
+	}
+	if bt {
+		base += "/"
+	}
+	return strings.HasPrefix(strings.ToLower(p), strings.ToLower(base))
 }
 
 func covered(l LogDir, reqPath string) bool {
